@@ -28,6 +28,9 @@ Atoms == { A(<<>>), A(<<97>>), A(<<111,107>>), A(<<195,169>>), A(<<226,130,172>>
           \cup (IF Heavy THEN {A(Rep(97, 65535))} ELSE {A(Rep(97, 1000))})
 Bins == { VBin(<<>>), VBin(<<1,2,3>>), VBin(Rep(7, 40)), VBin(<<104,105>>), VBin(Rep(0, 300)), VBits(<<1,128>>, 1), VBits(<<254>>, 7),
           VBits(<<255,224>>, 3), VBits(<<1,2,240>>, 4), VBits(<<128>>, 1), VBits(<<192>>, 2), VBits(<<248>>, 5), VBits(<<252>>, 6) }
+\* wide references: 16384 words is where a 16-bit word count times 4 leaves 16 bits; 65535 is the format's maximum
+WideIds == {VRef(Node1, <<0,0,0,1>>, [i \in 1..16384 |-> <<0,0,i \div 256, i % 256>>], <<>>)}
+           \cup (IF Heavy THEN {VRef(Node1, <<0,0,0,1>>, [i \in 1..65535 |-> <<0,0,i \div 256, i % 256>>], <<>>)} ELSE {})
 Ids == { Pid1, VPid(NodeU, <<255,255,255,255>>, <<0,0,0,0>>, <<1,2,3,4>>, <<>>),
          VPid(Node1, <<0,0,0,1>>, <<0,0,0,2>>, <<1,2,3,4>>, <<9,8,7,6,5,4,3,2>>),
          VPort(Node1, <<0,0,0,0,0,0,0,5>>, <<0,0,0,1>>, <<>>), VPort(Node1, <<1,0,0,0,0,0,0,5>>, <<0,0,1,1>>, <<>>),
@@ -35,7 +38,7 @@ Ids == { Pid1, VPid(NodeU, <<255,255,255,255>>, <<0,0,0,0>>, <<1,2,3,4>>, <<>>),
          VRef(Node1, <<0,0,0,2>>, <<<<0,0,0,1>>, <<0,0,0,2>>, <<0,0,0,3>>>>, <<>>), VRef(Node1, <<0,0,0,1>>, <<<<0,0,0,9>>>>, <<>>),
          VRef(Node1, <<0,0,0,1>>, <<>>, <<>>), VRef(NodeU, <<1,0,0,1>>, [i \in 1..5 |-> <<255,0,i,1>>], <<>>),
          VRef(Node1, <<0,0,0,7>>, <<<<0,0,0,1>>, <<0,0,0,2>>>>, <<255,254,253,252,251,250,249,248>>) }
-       \cup (IF Heavy THEN {VRef(Node1, <<0,0,0,1>>, [i \in 1..65535 |-> <<0,0,i \div 256, i % 256>>], <<>>)} ELSE {})
+       \cup WideIds
 Exports == { VExport(A(<<109>>), A(<<102>>), 3), VExport(A(<<195,169>>), A(<<>>), 255), VExport(A(Rep(97, 256)), A(<<102>>), 0) }
 Leaves == Ints \cup Floats \cup Atoms \cup Bins \cup Ids \cup Exports \cup {VNil}
 
@@ -70,8 +73,8 @@ D2 == D1
       \cup { VList(<<a>>, b) : a \in Containers1, b \in {VNil, SmallInt(1)} }
       \cup { VMap(CanonMap(<< <<a, b>>, <<b, a>> >>)) : a \in Containers1, b \in {SmallInt(1)} }
       \cup { MkFun(<<a>>) : a \in Containers1 }
-      \cup { VTuple(<<l>>) : l \in Leaves } \cup { VList(<<l>>, VNil) : l \in Leaves }
-      \cup { VMap(<< <<l, l>> >>) : l \in Leaves }
+      \cup { VTuple(<<l>>) : l \in Leaves } \cup { VList(<<l>>, VNil) : l \in Leaves \ WideIds }
+      \cup { VMap(<< <<l, l>> >>) : l \in Leaves \ WideIds }
 \* ---- C10: identifiers in plain and node-local form, in every context that can contain them
 Hashes == { <<9,8,7,6,5,4,3,2>>, <<0,0,0,0,0,0,0,0>>, <<255,255,255,255,255,255,255,255>> }
 IdPlain == { Pid1, VPid(NodeU, <<255,255,255,255>>, <<0,0,0,0>>, <<1,2,3,4>>, <<>>), VPid(A(Rep(97, 256)), <<0,0,0,1>>, <<0,0,0,2>>, <<0,0,0,3>>, <<>>),
